@@ -10,6 +10,7 @@ from ..terms import Const, Sym, App, TupleV, Obj, FuncV, ClassV, mk_app, is_app,
 from ..loader import AnalysisError
 from ..poly import Poly, term_poly
 from ..evalr import Ev, Policy
+from .c05 import has_eq
 from .. import session, groupmodel as gm
 
 
@@ -210,7 +211,7 @@ def ed25519(ctx, world, ev):
             # s % L == 0 -> Zero ; else fast/any ladder on self with s % L
             red = mk_app("Mod", (n, Const(L)))
             zp = [o for o in rets if o.value == zero]
-            ok = bool(zp) and all((mk_app("Eq", (red, Const(0))), True) in {(t, p) for (t, p, _) in o.state.pc} for o in zp)
+            ok = bool(zp) and all(has_eq({(t, p) for (t, p, _) in o.state.pc}, red, Const(0)) for o in zp)
             ctx.ob("G3-modL", inst, ok, "n = 0 (mod L) gives Zero" if ok else "scalarmult does not map n = 0 (mod L) to Zero", _msite(recv.cls, "scalarmult"))
             for o in rets:
                 if o.value == zero or not isinstance(o.value, Obj):
@@ -281,6 +282,14 @@ def _has(obj, name):
 
 # ----------------------------------------------------------------------------- ladders (G6)
 
+def _run_ladder(e2, f, pt, n, extra, world):
+    """call f(pt, n, extra...) binding keyword-only function parameters by name"""
+    npos = len(f.node.args.args)
+    vals = [pt, n] + list(extra)
+    names = [a.arg for a in f.node.args.kwonlyargs]
+    return e2.run(f, vals[:npos], list(zip(names, vals[npos:])), world.static.fork())
+
+
 def loop_ladder(ctx, world, ev, m, forms, f, extra, site):
     """Iterative double-and-add, left to right: acc = identity; for each binary digit of n, most
     significant first: acc = 2*acc (+ P when the digit is 1).  One symbolic iteration with the
@@ -292,7 +301,7 @@ def loop_ladder(ctx, world, ev, m, forms, f, extra, site):
     e2.policy.force_inline.add(f.qual)
     pt = TupleV([Sym(c, "int") for c in ("PX", "PY", "PZ", "PT")])
     n = Sym("n", "int")
-    outs = e2.run(f, [pt, n] + list(extra), [], world.static.fork())
+    outs = _run_ladder(e2, f, pt, n, extra, world)
     rets = session.rets(outs)
     entries = [c for (_, c) in e2.loop_entries]
     if len(entries) == 1 and len(entries[0]) == 3:
@@ -359,6 +368,19 @@ def loop_ladder(ctx, world, ev, m, forms, f, extra, site):
                 return False
             is_one = lambda conds: _truth(conds, True)
             is_zero = lambda conds: _truth(conds, False)
+        elif is_app(src, "reversed") and len(src.args) == 1 and isinstance(src.args[0], TupleV) and len(src.args[0].items) == 1 \
+                and is_app(src.args[0].items[0], "star") and isinstance(src.args[0].items[0].args[0], App) \
+                and src.args[0].items[0].args[0].f.startswith("fn:") and src.args[0].items[0].args[0].args == (n,) \
+                and gm.func_by_qual(world, src.args[0].items[0].args[0].f[3:]) is not None:
+            dg = gm.func_by_qual(world, src.args[0].items[0].args[0].f[3:])      # reversed([*digits_lsb_first(n)])
+            okd, how = gm.lsb_digits_generator_ok(world, ev, dg)
+            how = "reversed(list(%s(n))): %s" % (dg.node.name, how)
+
+            def _t3(conds, want):
+                return (it, want) in conds or (mk_app("NotEq", (it, Const(0))), want) in conds or (mk_app("Eq", (it, Const(0))), not want) in conds \
+                    or (mk_app("Eq", (it, Const(1))), want) in conds
+            is_one = lambda conds: _t3(conds, True)
+            is_zero = lambda conds: _t3(conds, False)
         elif isinstance(src, App) and src.f.startswith("fn:") and src.args == (n,) and not src.kw \
                 and gm.func_by_qual(world, src.f[3:]) is not None:
             dg = gm.func_by_qual(world, src.f[3:])
@@ -478,7 +500,7 @@ def ladders(ctx, world, ev, m, forms):
         e2.unfold_once.add(f.qual)
         pt = TupleV([Sym(c, "int") for c in ("PX", "PY", "PZ", "PT")])
         n = Sym("n", "int")
-        outs = e2.run(f, [pt, n] + list(extra), [], world.static.fork())
+        outs = _run_ladder(e2, f, pt, n, extra, world)
         label = f.qual + ("[%s]" % ", ".join(x.node.name for x in extra) if extra else "")
         rets = session.rets(outs)
         rec = None
@@ -513,7 +535,7 @@ def ladders(ctx, world, ev, m, forms):
                 continue
             l = lin(o.value)
             odd = (bit, True) in conds or (mk_app("Eq", (bit, Const(0))), False) in conds or (mk_app("NotEq", (bit, Const(0))), True) in conds
-            even = (bit, False) in conds or (mk_app("Eq", (bit, Const(0))), True) in conds
+            even = (bit, False) in conds or (mk_app("Eq", (bit, Const(0))), True) in conds or (mk_app("NotEq", (bit, Const(0))), False) in conds
             if odd and l == (2, 1):
                 step_odd = True
             elif even and l == (2, 0):
